@@ -84,7 +84,19 @@ def locking(ctx, prog):
     t = unparse(ps.node)
     ok = f"address, remote_status = {ps.fi.params()[1]}" in t and "self.update_history(address, remote_status)" in t
     ctx.ob("C09-D1/SCHED", ok, ps.site(), "address and status are taken from the notification itself", func=pq)
+    li = ctx.fa(f"{L}.__init__")
+    ok = any(unparse(c) == "self.network.on_status.listen(self.process_status_update)" for c in li.calls(name="listen"))
+    ctx.ob("C09-D1/SCHED", ok, li.site(), "status notifications from the network are delivered to process_status_update", func=li.fi.qualname, key="C09-D1/SCHED|listen")
     sa = ctx.fa(f"{L}.subscribe_addresses")
+    sq = sa.fi.qualname
+    _, _am, addrs, bs = sa.fi.params()
+    body = [norm_text(x) for x in sa.local_nodes(ast.Assign)]
+    ok = f"addresses_remaining = list({addrs})" in body and f"batch = addresses_remaining[:{bs}]" in body and f"addresses_remaining = addresses_remaining[{bs}:]" in body and \
+        any(unparse(w.test) == "addresses_remaining" for w in sa.stmts(ast.While))
+    ctx.ob("C09-D1/SCHED", ok, sa.site(), "all given addresses are subscribed, batch by batch (prefix taken, same prefix dropped, until none remain)", func=sq, key=f"C09-D1/SCHED|{sq}|all-batches")
+    for c in sa.calls(dotted_name="self.update_history"):
+        R.exact_gate(ctx, "C09-D1/SCHED", sa, c, f"self.network.is_connected and {addrs}", "every subscribed address is synced — no further condition",
+                     ignore=["addresses_remaining"], key=f"C09-D1/SCHED|{sq}|every-address")
     t = unparse(sa.node)
     ok = "results = await self.network.subscribe_address(*batch)" in t and "for address, remote_status in zip(batch, results)" in t and \
         "self._update_tasks.add(self.update_history(address, remote_status, address_manager))" in t
@@ -108,17 +120,50 @@ def ordering(ctx, prog):
         ok = unparse(save[0].args[0]) == f"{pend}.values()" and unparse(save[0].args[1]) == sb.fi.params()[1]
         ctx.ob("C09-D2/ORDER", ok, sb.site(save[0]), "the same pending transactions are saved for the address being synced", func=q)
     sy = ctx.fa(f"{L}._sync")
+    syq = sy.fi.qualname
+    _, txp, rh, pend = sy.fi.params()
+    links = [x for x in sy.stmts(ast.Assign) if any(dotted(t) == "txi.txo_ref" for t in x.targets)]
+    ctx.floor("C09-D2/LINK", "input-resolution assignments (txi.txo_ref = …) in _sync", len(links), 3, site=sy.site(), func=syq)
+    want = {
+        f"{pend}[txi.txo_ref.tx_ref.id].outputs[txi.txo_ref.position].ref":
+            (f"txi.txo_ref.txo is None and txi.txo_ref.tx_ref.id in {rh} and txi.txo_ref.tx_ref.id in {pend}",
+             "an unresolved input whose source transaction is in this address's history and in the pending batch is linked to the batch's output at its position"),
+        "referenced_txos[txi.txo_ref.id].ref":
+            ("txi.txo_ref.id in referenced_txos", "an input whose source output is stored is linked to the stored output"),
+        "tx_from_db.outputs[txi.txo_ref.position].ref":
+            ("txi.txo_ref.id not in referenced_txos and tx_from_db is not None", "otherwise the stored source transaction's output at that position is used"),
+    }
+    for x in links:
+        val = sy.expanded_text(x.value, keep=("referenced_txos", "tx_from_db"))
+        w = want.get(val)
+        if w is None:
+            ctx.ob("C09-D2/LINK", False, sy.site(x), "inputs are linked only to the output they name (pending batch, stored output or stored transaction)", detail=f"links to `{val}`", func=syq)
+            continue
+        R.exact_gate(ctx, "C09-D2/LINK", sy, x, w[0], w[1], key=f"C09-D2/LINK|{syq}|{val[:30]}")
+    dbq = [x for x in sy.stmts(ast.Assign) if any(isinstance(t, ast.Subscript) and dotted(t.value) == "check_db_for_txos" for t in x.targets)]
+    ctx.floor("C09-D2/LINK", "check_db_for_txos[txi] = … in _sync", len(dbq), 1, site=sy.site(), func=syq)
+    for x in dbq:
+        ok = unparse(x.targets[0].slice) == "txi" and unparse(x.value) == "txi.txo_ref.id"
+        ctx.ob("C09-D2/LINK", ok, sy.site(x), "inputs to look up in the database are keyed by the input, value = the spent output's id", func=syq)
+        R.exact_gate(ctx, "C09-D2/LINK", sy, x, f"txi.txo_ref.txo is None and txi.txo_ref.tx_ref.id in {rh} and txi.txo_ref.tx_ref.id not in {pend}",
+                     "every unresolved input whose source transaction is in this address's history but not in the batch is looked up in the database", key=f"C09-D2/LINK|{syq}|db-lookup")
     t = unparse(sy.node)
-    ok = "if wanted_txid in pending_txs" in t and "txi.txo_ref = pending_txs[wanted_txid].outputs[txi.txo_ref.position].ref" in t and \
-        "check_db_for_txos[txi] = txi.txo_ref.id" in t and "await self.db.get_txos(txoid__in=list(check_db_for_txos.values())" in t and \
-        "tx_from_db = await self.db.get_transaction(txid=txi.txo_ref.tx_ref.id)" in t
-    ctx.ob("C09-D2/ORDER", ok, sy.site(), "an input is resolved against the pending batch first, then against stored outputs, then the stored transaction", func=sy.fi.qualname)
+    ok = f"for txi in {txp}.inputs" in t and "for txi in check_db_for_txos" in t and \
+        "await self.db.get_txos(txoid__in=list(check_db_for_txos.values())" in t and "tx_from_db = await self.db.get_transaction(txid=txi.txo_ref.tx_ref.id)" in t
+    ctx.ob("C09-D2/LINK", ok, sy.site(), "all inputs of the transaction are visited; stored outputs are fetched by the collected ids, the stored transaction by the source txid", func=syq)
+    tio = ctx.fa(f"{DB}._transaction_io")
+    ok = any(unparse(x.test) == "txi.txo_ref.txo is not None" for x in tio.stmts(ast.If)) and "txo = txi.txo_ref.txo" in unparse(tio.node)
+    ctx.ob("C09-D2/LINK", ok, tio.site(), "…and _transaction_io reads exactly that link (txi.txo_ref.txo)", func=tio.fi.qualname)
     rs = ctx.fa(f"{L}.request_synced_transactions")
     rq = rs.fi.qualname
     calls = rs.calls(dotted_name="self.request_transactions")
     ok = len(calls) == 1 and kwarg(calls[0], "cached") is None and len(calls[0].args) == 1
     ctx.ob("C09-D2/ORDER", ok, rs.site(), "history sync requests transactions uncached: a batch contains every requested transaction, so a spender and the "
            "transaction it spends are resolved and saved together whichever address is synced first", func=rq, key=f"C09-D2/ORDER|{rq}|uncached")
+    ys = [y for y in rs.local_nodes(ast.Yield)]
+    ok = len(ys) == 1 and dotted(ys[0].value) == "tx" and any(isinstance(f, ast.For) and unparse(f.iter) == f"{dotted(loops[0].target) if (loops := rs.stmts(ast.AsyncFor)) else '?'}.values()"
+                                                              and dotted(f.target) == "tx" and not R.atomic_facts_at(rs, ys[0])[0] for f in rs.stmts(ast.For))
+    ctx.ob("C09-D2/DEP", ok, rs.site(), "every transaction of every batch is handed to update_history (which records it at its remote index)", func=rq)
     sv = rs.calls(dotted_name="self._sync_and_save_batch")
     loops = rs.stmts(ast.AsyncFor)
     ok = len(sv) == 1 and len(loops) == 1 and rs.lexically_inside(sv[0], lambda a: a is loops[0]) is not None and \
@@ -187,9 +232,13 @@ def ordering(ctx, prog):
     ok = ok and isinstance(st, ast.Assign) and unparse(st.targets[0]) == "(local_status, local_history)"
     ctx.ob("C09-D2/ORDER", ok, uh.site(), "after the write, status and history are recomputed from what was written and compared with the server's again", func=q)
     rets = [r for r in uh.stmts(ast.Return) if is_const(r.value, False)]
-    ok = len(rets) == 1 and uh.guarded(rets[0], "local_status != remote_status and not local_history == remote_history")[0] and \
-        "self._known_addresses_out_of_sync.add(address)" in t
+    ok = len(rets) == 1 and "self._known_addresses_out_of_sync.add(address)" in t
     ctx.ob("C09-D2/GATE", ok, uh.site(), "a history that still differs after syncing is reported (False) and the address marked out of sync", func=q)
+    for r in rets:
+        R.exact_gate(ctx, "C09-D2/GATE", uh, r, "local_status != remote_status and not local_history == remote_history",
+                     "…exactly when the recomputed status differs from the server's and the histories differ too",
+                     ignore=["we_need", "not not we_need", "len(pending_synced_history) == len(remote_history)", "address_manager is None", "not address_manager is None",
+                             "address_manager is not None"], key=f"C09-D2/GATE|{q}|verdict-exact")
 
 
 def unspent(ctx, prog):
@@ -197,13 +246,19 @@ def unspent(ctx, prog):
     calls = gb.calls(dotted_name="self.select_txos")
     ok = len(calls) == 1 and is_const(kwarg(calls[0], "is_spent"), False) and is_const(calls[0].args[0], "SUM(amount) as total")
     ctx.ob("C09-D3/QUERY", ok, gb.site(), "balance = SUM(amount) over select_txos(is_spent=False)", func=gb.fi.qualname, key="C09-D3/QUERY|balance")
+    r = R.single_return_value(gb)
+    ok = r is not None and unparse(r.value) == "balance[0]['total'] or 0" and "balance = await self.select_txos(" in unparse(gb.node) and \
+        "constraints['accounts'] = accounts or wallet.accounts" in unparse(gb.node)
+    ctx.ob("C09-D3/QUERY", ok, gb.site(), "the balance returned is that sum (0 for no rows), over the given accounts (or all of the wallet's)", func=gb.fi.qualname)
     gc = ctx.fa(f"{DB}.get_utxo_count")
     r = R.single_return_value(gc)
     ctx.ob("C09-D3/QUERY", r is not None and unparse(r.value) == "self.get_txo_count(is_spent=False, **constraints)", gc.site(), "UTXO count uses the same is_spent=False definition",
            func=gc.fi.qualname, key="C09-D3/QUERY|count")
     gt = ctx.fa(f"{DB}.get_txo_count")
     ok = any(unparse(c.func) == "self.select_txos" for c in gt.calls())
-    ctx.ob("C09-D3/QUERY", ok, gt.site(), "through select_txos", func=gt.fi.qualname)
+    r = R.single_return_value(gt)
+    ok = ok and r is not None and unparse(r.value) == "count[0]['total'] or 0" and "count = await self.select_txos('COUNT(*) AS total', **constraints)" in unparse(gt.node)
+    ctx.ob("C09-D3/QUERY", ok, gt.site(), "through select_txos('COUNT(*) as total'), returning that count", func=gt.fi.qualname)
     n0 = len(ctx.obligations)
     c14.invisible(ctx, prog)
     for o in ctx.obligations[n0:]:
@@ -236,11 +291,17 @@ def persistence(ctx, prog):
         okd = isinstance(d, ast.Dict) and {k.value: unparse(v) for k, v in zip(d.keys, d.values)} == {"txid": f"{tx}.id", "txoid": "txo.id", "address": address, "position": "txi.position"}
         ctx.ob("C09-D4/DEP", okd, ti.site(c), "the row links this transaction to the spent output's id", func=q)
     mine = [s for s in ti.stmts(ast.Assign) if any(dotted(t) == "is_my_input" for t in s.targets) and is_const(s.value, True)]
+    init = [s for s in ti.stmts(ast.Assign) if any(dotted(t) == "is_my_input" for t in s.targets) and is_const(s.value, False)]
+    ctx.ob("C09-D4/DEP", len(init) == 1 and not R.atomic_facts_at(ti, init[0])[0], ti.site(), "is_my_input starts False for every transaction", func=q)
     ok = len(mine) == 1 and bool(txi) and R.stmt_of(mine[0])._parent is R.stmt_of(txi[0])._parent
     ctx.ob("C09-D4/DEP", ok, ti.site(), "is_my_input is set exactly where an input row is written", func=q)
     for c in txo:
         p2pkh = ti.guarded(c, f"txo.script.is_pay_pubkey_hash and (txo.pubkey_hash == {txhash} or is_my_input)")[0]
         p2sh = ti.guarded(c, "txo.script.is_pay_script_hash and is_my_input")[0]
+        have, _F = R.atomic_facts_at(ti, c)
+        extra = {k for k in have if k not in {("txo.script.is_pay_pubkey_hash", True), ("txo.script.is_pay_pubkey_hash", False), ("txo.script.is_pay_script_hash", True),
+                                              ("is_my_input", True)}}
+        ctx.ob("C09-D4/GATE", not extra, ti.site(c), "…and under no further condition", detail=R.fmt_missing(sorted(extra)), func=q)
         ctx.ob("C09-D4/GATE", p2pkh or p2sh, ti.site(c), "an output row is written for a p2pkh output paying this address's hash (or when one of our inputs is spent), "
                "or a p2sh output of a transaction spending our input", func=q, key=f"C09-D4/GATE|{q}|txo|{'p2pkh' if p2pkh else 'p2sh' if p2sh else '?'}")
         ok = is_const(kwarg(c, "ignore_duplicate"), True) and len(c.args) > 1 and unparse(c.args[1]) == f"self.txo_to_row({tx}, txo)"
@@ -278,5 +339,11 @@ def persistence(ctx, prog):
         "hexlify(sha256(history.encode())).decode() if history else None" in tt and "history = (address_details['history'] if address_details else '') or ''" in tt
     ctx.ob("C09-D2/UNIT", ok, gl.site(), "local status = sha256 hex of the stored `txid:height:` string (None when empty), local history = its (txid, int height) pairs — the "
            "same format update_history writes and the server hashes", func=gl.fi.qualname)
+    rd = [c for c in gl.calls(dotted_name="self.db.get_address")]
+    for c in rd:
+        ok = unparse(c) == f"self.db.get_address(address={gl.fi.params()[1]})"
+        ctx.ob("C09-D2/UNIT", ok, gl.site(c), "the stored history is read for the address asked about", func=gl.fi.qualname)
+        R.exact_gate(ctx, "C09-D2/UNIT", gl, c, f"not {gl.fi.params()[2]}", "the database is consulted exactly when no history string was handed in", key="C09-D2/UNIT|local|read-exact")
+    ctx.floor("C09-D2/UNIT", "db.get_address in get_local_status_and_history", len(rd), 1, site=gl.site(), func=gl.fi.qualname)
     ok = any(dotted(c.func) == "self.db.run" and c.args and dotted(c.args[0]) == "__many" for c in sb.calls())
     ctx.ob("C09-D4/DEP", ok, sb.site(), "through AIOSQLite.run (begin … commit / rollback)", func=sb.fi.qualname)
